@@ -91,6 +91,11 @@ def standard_pool():
     # marker surrounded by bytes that are not UTF-8: from_utf8_lossy must not hide it
     p.add("badutf_jacoco", b"\xff\xe2" + b'<!DOCTYPE report PUBLIC "-//JACOCO//DTD Report 1.1//EN" "report.dtd">\xe2\x82<report name="b\xc3">'
           b'<package name="p"><sourcefile name="U.java"><line nr="1" mi="0" ci="1" mb="0" cb="0"/></sourcefile></package></report>')
+    # the same public identifier in other legal spellings of the document type declaration
+    body = b'<report name="%s"><package name="p"><sourcefile name="%s"><line nr="1" mi="0" ci="1" mb="0" cb="0"/></sourcefile></package></report>'
+    p.add("jacoco_wrapped", b'<?xml version="1.0" encoding="UTF-8"?>\n<!DOCTYPE report\n    PUBLIC\n    "-//JACOCO//DTD Report 1.1//EN"\n    "report.dtd">\n' + body % (b"w", b"W.java"))
+    p.add("jacoco_squote", b"<?xml version='1.0' encoding='UTF-8'?><!DOCTYPE report PUBLIC '-//JACOCO//DTD Report 1.1//EN' 'report.dtd'>" + body % (b"q", b"Q.java"))
+    p.add("jacoco_spaces", b'<?xml version="1.0"?>\n<!DOCTYPE   report   PUBLIC   "-//JACOCO//DTD Report 1.0//EN"\t"report.dtd" >\n' + body % (b"s", b"Sp.java"))
     return p
 
 
@@ -98,7 +103,8 @@ def standard_pool():
 def artifacts_std(pool, with_prof=False, gcc=True):
     a = [("info", "a.info", "info_a"), ("info", "logs/b.info", "info_b"), ("info", "a.info", "info_a2"),
          ("xml", "rep/one.xml", "xml_1"), ("xml", "two.xml", "xml_2"),
-         ("xml", "short.xml", "short_jacoco"), ("xml", "rep/straddle.xml", "straddle_jacoco"), ("decoy", "late.xml", "decoy_xml_late"),
+         ("xml", "short.xml", "short_jacoco"), ("xml", "rep/straddle.xml", "straddle_jacoco"),
+         ("xml", "rep/wrapped.xml", "jacoco_wrapped"), ("xml", "squote.xml", "jacoco_squote"), ("xml", "rep/spaces.xml", "jacoco_spaces"), ("xml", "badutf.xml", "badutf_jacoco"), ("decoy", "late.xml", "decoy_xml_late"),
          # byte-identical files under the same relative name in different archives: each occurrence is an input
          ("info", "same/s.info", "info_c"), ("info", "same/s.info", "info_c"), ("xml", "same/r.xml", "xml_1"), ("xml", "same/r.xml", "xml_1"),
          # dot-named directories and files are ordinary members, in a directory as in a zip
